@@ -180,6 +180,12 @@ def corruptions(tier):
         "many-quotes": ("'" * 61 + "\n") * 2,
         "common-garbage": "subroutine zq()\n  common // a, b /c/ d,\n  namelist /n/ \nend subroutine zq\n",
         "type-garbage": "module zq\n  type, extends() :: t\n  end type\n  type :: \n  end type\nend module zq\n",
+        # text that looks like console markup, echoed in the diagnostics
+        "markup-ini-file": "[section]\nkey = value &\n[/section]\n& more [/b]\n",
+        "markup-leading-amp": "module zq\n  integer :: x\n  & [/x] stray\nend module zq\n",
+        "markup-bad-decl": "module zq\n  integer(kind=[/x]) :: v [/bold]\n  type([/i]) :: w\nend module zq\n",
+        "markup-unterminated": "x = 'abc [/i]\n",
+        "markup-open-tag": "module zq\n  & [bold red] stray [i]\nend module zq\n",
         "call-garbage": "program zq\n  call \n  call %x()\n  x = f((()\nend program zq\n",
     }
     for k, v in G.items():
@@ -247,7 +253,7 @@ def baseline():
     return _BASELINE["b"]
 
 
-POSITIONS = {"first": "a_bad.f90", "between": "n_bad.f90", "last": "z_bad.f90"}
+POSITIONS = {"first": "a_bad.f90", "between": "n_bad.f90", "last": "z_bad.f90", "markup-name": "n_[bold]bad[red].f90"}
 
 
 def run_case(st: Stats, case):
@@ -370,10 +376,88 @@ def run_include_case(st: Stats, case):
         st.stratum(stratum, 0)
 
 
+# ---- a damaged INCLUDE file shared by several source files: each includer fares alike --------------------------------
+BAD_INCLUDES = {
+    "valid": "integer :: ok1\ninteger :: ok2\n",
+    "leading-amp": "integer :: ok1\n& bad continuation\ninteger :: ok2\n",
+    "leading-amp-late": "integer :: ok1\ninteger :: ok2\ninteger :: ok3\n& bad\n",
+    "nested-missing": "integer :: ok1\ninclude 'nowhere.inc'\ninteger :: ok2\n",
+    "inline-predoc": "integer :: ok1\ninteger :: x !> doc before\ninteger :: ok2\n",
+    "undecodable": b"integer :: ok1\ninteger :: y\n! \xff\xfe\xfa\ninteger :: ok2\n",
+    "unterminated": "integer :: ok1\ncharacter(9) :: c = 'abc\ninteger :: ok2\n",
+    "empty": "",
+}
+
+
+def install_baseline_for_includes():
+    if "b" not in _INC_BASELINE:
+        r0, _, _ = guarded_build(dict(INC_BASE), include=["inc"])
+        assert r0 is not None and r0.error is None, (r0 and r0.error, r0 and r0.log)
+        _INC_BASELINE["b"] = observe(r0.project, "<none>")
+
+
+def run_shared_include_case(st: Stats, case):
+    _, kind, nusers, fixed = case
+    install_baseline_for_includes()
+    text = BAD_INCLUDES[kind]
+    ext = "f" if fixed else "f90"
+    files = dict(INC_BASE)
+    if fixed and isinstance(text, str):
+        text = "".join(("      " + l if l and not l.startswith("&") else ("     &" + l[1:] if l else l)) + "\n" for l in text.split("\n")[:-1])
+    files["inc/shared.inc"] = text
+    ind = "      " if fixed else "  "
+    users = [f"u{k}" for k in range(1, nusers + 1)]
+    for u in users:
+        files[f"src/{u}.{ext}"] = f"{ind}module {u}\n{ind}implicit none\n{ind}integer :: own_{u}\n{ind}include 'shared.inc'\n{ind}end module {u}\n"
+    r, dt, hung = guarded_build(files, include=["inc"])
+    st.evaluations += 1
+    st.transitions += 1
+    stratum = f"shared-include/{kind}"
+    inp = dict(kind="shared-include", detail=kind, users=nusers, fixed=fixed, include_text=text if isinstance(text, str) else repr(text), shared_include_case=True)
+    feats = dict(kind="shared-include", detail=kind, position=f"{nusers}-users", fixed=fixed)
+    st.nontrivial.add(core.digest(["shared-inc", kind, nusers, fixed]))
+    if hung or r is None:
+        st.violation("hang", stratum, feats, inp, f"no result after {WATCHDOG_S}s of CPU time", "terminates")
+        st.stratum(stratum, 1)
+        return
+    if r.error is not None:
+        st.violation("run-aborted", stratum, dict(feats, error_class=type(r.error).__name__, message=str(r.error)[:60]), inp, repr(r.error)[:300], "the files are skipped, the run completes")
+        st.stratum(stratum, 1)
+        return
+    bad = 0
+    seen = {}
+    for u in users:
+        mods = [m for m in r.project.modules if m.name == u]
+        seen[u] = None if not mods else sorted(v.name.replace(u, "U") for v in mods[0].variables)
+    st.states.add(core.digest([kind, sorted(map(str, seen.values()))]))
+    vals = list(seen.values())
+    if any(v != vals[0] for v in vals):
+        bad += 1
+        st.violation("includers-of-one-file-fare-differently", stratum, feats, inp, seen, "every file that includes the same text is accepted with the same declarations, or rejected")
+    for u in users:
+        if seen[u] is None and f"{u}.{ext}" not in r.log:
+            bad += 1
+            st.violation("rejected-file-not-named", stratum, feats, inp, r.log[-300:], f"a diagnostic naming {u}.{ext}")
+            break
+    if kind == "valid" and vals[0] != ["ok1", "ok2", "own_U"]:
+        bad += 1
+        st.violation("includers-of-one-file-fare-differently", stratum, feats, inp, seen, "ok1, ok2 and the module's own variable")
+    # the rest of the project is as without these files
+    recs = [x for x in canon.tree(r.project) if not any(x["path"].startswith(f"file:{u}.{ext}") for u in users)]
+    d = canon.diff(recs, _INC_BASELINE["b"][0]) + canon.diff(_INC_BASELINE["b"][0], recs)
+    if d:
+        bad += 1
+        what, key, det = d[0]
+        st.violation("other-files-tree-changed", stratum, dict(feats, diff=what), inp, dict(diff=what, key=list(key), detail=det), "tree of the valid files as without the extra files")
+    st.stratum(stratum, bad)
+
+
 def work(chunk):
     st = Stats()
     for case in chunk:
-        if case[0] == "include":
+        if case[0] == "shared-include":
+            run_shared_include_case(st, case)
+        elif case[0] == "include":
             run_include_case(st, case)
         else:
             run_case(st, case)
@@ -381,10 +465,14 @@ def work(chunk):
 
 
 def gen_cases(tier):
+    for kind in BAD_INCLUDES:
+        for nusers in (1, 2, 3):
+            for fixed in (False, True):
+                yield ("shared-include", kind, nusers, fixed)
     for kind, detail, text in corruptions(tier):
         if kind in ("truncate", "grammar", "delete-end", "extra-end", "stray-end-file-level") and (tier == "thorough" or kind != "truncate" or int(detail.split("@")[1]) % 3 == 0):
             yield ("include", kind, detail, text)
-        positions = ("first", "between", "last")
+        positions = ("first", "between", "last") + (("markup-name",) if kind == "grammar" else ())
         for pos in positions:
             yield (kind, detail, text, pos)
 
@@ -394,6 +482,14 @@ def replay(path):
 
     core.use_repo()
     rec = json.loads(open(path).read())
+    if rec["input"].get("shared_include_case"):
+        st = Stats()
+        install_baseline_for_includes()
+        run_shared_include_case(st, ("shared-include", rec["input"]["detail"], rec["input"]["users"], rec["input"]["fixed"]))
+        print(rec["input"]["include_text"])
+        for v in st.violations:
+            print("REPRODUCED", v["clause"], v["observed"])
+        return 1 if st.violations else 0
     want = (rec["input"]["kind"], rec["input"]["detail"], rec["input"]["position"])
     for case in gen_cases("thorough"):
         if rec["input"].get("include_case"):
